@@ -1,6 +1,6 @@
 (* Characterising lemmas for the GENERATED genR/Mean.v: later proofs depend on these, not on the raw text. *)
 From Coq Require Import Reals String List Lra.
-From TT Require Import lib.PreludeR lib.Stats lib.Distr genR.Aggr genR.Mean.
+From TT Require Import lib.PreludeR lib.RTac lib.Stats lib.Distr genR.Aggr genR.Mean.
 Local Open Scope R_scope.
 
 Ltac nR := cbv [nlit nraise neqb nsqrt nexp nexp_sat nabs nmax npow pow] in *.
@@ -42,7 +42,7 @@ Lemma scale_and_distr_none cfg cv cn tv tn :
   = (se_of (cfg_equal_var cfg) cv cn tv tn, null_of (cfg_equal_var cfg) (cfg_use_t cfg) cv cn tv tn, None).
 Proof.
   unfold rom_scale_and_distr, se_of, null_of, df_of, welch_df, pooled_var.
-  destruct (cfg_equal_var cfg), (cfg_use_t cfg); nR; rewrite ?Rmult_1_r; reflexivity.
+  destruct (cfg_equal_var cfg), (cfg_use_t cfg); nR; cbv zeta; rewrite ?Rmult_1_r; rq.
 Qed.
 
 Definition alt_of (use_t : bool) (df nc : R) : dist R :=
@@ -53,7 +53,7 @@ Lemma scale_and_distr_some cfg cv cn tv tn e :
      Some (alt_of (cfg_use_t cfg) (df_of (cfg_equal_var cfg) cv cn tv tn) (e / se_of (cfg_equal_var cfg) cv cn tv tn))).
 Proof.
   unfold rom_scale_and_distr, alt_of, se_of, null_of, df_of, welch_df, pooled_var.
-  destruct (cfg_equal_var cfg), (cfg_use_t cfg); nR; rewrite ?Rmult_1_r; reflexivity.
+  destruct (cfg_equal_var cfg), (cfg_use_t cfg); nR; cbv zeta; rewrite ?Rmult_1_r; rq.
 Qed.
 
 (* the result of _analyze_stats, one lemma per alternative *)
@@ -73,7 +73,7 @@ Lemma analyze_stats_greater : cfg_alternative cfg = Greater ->
     (tm / cm - 1) (Fin (tm / cm * exp (ls * isf ld cl) - 1)) PInf
     (sf d ((tm - cm) / s)) ((tm - cm) / s).
 Proof.
-  intros Ha. unfold rom_analyze_stats. rewrite !scale_and_distr_none, Ha. cbn [alternative_eqb]. reflexivity.
+  intros Ha. unfold rom_analyze_stats. rewrite !scale_and_distr_none, Ha. cbn [alternative_eqb]. first [reflexivity | (cbv beta iota zeta; nR; cbn [esub eadd]; unfold s, d, ls, ld, cl, ev, ut; rq)].
 Qed.
 Lemma analyze_stats_less : cfg_alternative cfg = Less ->
   rom_analyze_stats fam cfg cm cv cn tm tv tn =
@@ -82,7 +82,7 @@ Lemma analyze_stats_less : cfg_alternative cfg = Less ->
     (tm / cm - 1) NInf (Fin (tm / cm * exp (ls * ppf ld cl) - 1))
     (cdf d ((tm - cm) / s)) ((tm - cm) / s).
 Proof.
-  intros Ha. unfold rom_analyze_stats. rewrite !scale_and_distr_none, Ha. cbn [alternative_eqb]. reflexivity.
+  intros Ha. unfold rom_analyze_stats. rewrite !scale_and_distr_none, Ha. cbn [alternative_eqb]. first [reflexivity | (cbv beta iota zeta; nR; cbn [esub eadd]; unfold s, d, ls, ld, cl, ev, ut; rq)].
 Qed.
 Lemma analyze_stats_two_sided : cfg_alternative cfg = TwoSided ->
   rom_analyze_stats fam cfg cm cv cn tm tv tn =
@@ -92,7 +92,7 @@ Lemma analyze_stats_two_sided : cfg_alternative cfg = TwoSided ->
     (Fin (tm / cm / exp (ls * ppf ld ((1 + cl) / 2)) - 1)) (Fin (tm / cm * exp (ls * ppf ld ((1 + cl) / 2)) - 1))
     (2 * sf d (Rabs ((tm - cm) / s))) ((tm - cm) / s).
 Proof.
-  intros Ha. unfold rom_analyze_stats. rewrite !scale_and_distr_none, Ha. cbn [alternative_eqb]. reflexivity.
+  intros Ha. unfold rom_analyze_stats. rewrite !scale_and_distr_none, Ha. cbn [alternative_eqb]. first [reflexivity | (cbv beta iota zeta; nR; cbn [esub eadd]; unfold s, d, ls, ld, cl, ev, ut; rq)].
 Qed.
 End Stats.
 
